@@ -23,6 +23,7 @@ type ZZRecorded struct {
 	Dst     string
 	Payload []byte
 	Tag     string
+	Str     string // c.String(): protocol, flags, tag, addresses
 	Chunk   Chunk
 }
 
@@ -48,7 +49,7 @@ func (n *ZZRecNIC) getStaticIPs() []net.IP                             { return 
 func (n *ZZRecNIC) setRouter(*Router) error                            { return nil }
 func (n *ZZRecNIC) onInboundChunk(c Chunk) {
 	n.Got = append(n.Got, ZZRecorded{At: zzvsched.Elapsed(), Src: c.SourceAddr().String(), Dst: c.DestinationAddr().String(),
-		Payload: append([]byte(nil), c.UserData()...), Tag: c.Tag(), Chunk: c})
+		Payload: append([]byte(nil), c.UserData()...), Tag: c.Tag(), Str: c.String(), Chunk: c})
 }
 
 // ZZAddrs returns the addresses the router assigned to this NIC.
@@ -68,6 +69,15 @@ func ZZUDPChunk(src, dst string, payload []byte) Chunk {
 	s, _ := net.ResolveUDPAddr("udp", src)
 	d, _ := net.ResolveUDPAddr("udp", dst)
 	c := newChunkUDP(s, d)
+	c.userData = payload
+	return c
+}
+
+// ZZTCPChunk builds a TCP chunk (PSH|ACK) with payload.
+func ZZTCPChunk(src, dst string, payload []byte) Chunk {
+	s, _ := net.ResolveTCPAddr("tcp", src)
+	d, _ := net.ResolveTCPAddr("tcp", dst)
+	c := newChunkTCP(s, d, tcpPSH|tcpACK)
 	c.userData = payload
 	return c
 }
